@@ -95,7 +95,10 @@ async def sim_run_in_thread(self):
     w = _world()
     d = w.chooser.delay("hash.delay", 0, 30)
     w.count("hash.jobs")
-    if w.chooser.chance("hash.slow", 15):
+    # the output hashing of a skip check is the long part of the check (outputs can be big):
+    # make it slow more often than the other hash jobs
+    fname = getattr(getattr(self.work, "func", None), "__name__", "")
+    if w.chooser.chance("hash.slow", 60 if fname == "compute_out_hashes" else 15):
         # a big file: hashing takes seconds, longer than any timeout in the director
         d += w.chooser.delay("hash.slow_ms", 2000, 20000)
         w.count("fault.slow_hash")
